@@ -569,6 +569,12 @@ def _dot(ex, a, b):
     def cell(xs):
         ia = list(xs[:a.rank - 1])
         ib = list(xs[a.rank - 1:])
+        if isinstance(n, int) and n <= 4:
+            # a contraction over a small fixed number of components (3-vectors): written out
+            tot = 0
+            for k in range(n):
+                tot = arith("+", tot, arith("*", sa.get(ia + [k]), sb.get([k] + ib)))
+            return tot
         return sums.mk_sum(ex, n, lambda k: arith("*", sa.get(ia + [k]), sb.get([k] + ib)))
     if not shape:
         return cell([])
@@ -1165,6 +1171,21 @@ def _install(M):
     _elementwise("numpy.cosh", lambda x: V.ufun("cosh", x))
     _elementwise("numpy.log", lambda x: V.ufun("log", x))
     _elementwise("numpy.sign", lambda x: ite(compare(">", x, 0), 1, ite(compare("<", x, 0), -1, 0)))
+
+    @reg("numpy.prod")
+    def _nprod(ex, a, k, l):
+        """product of the elements of a (small, concretely shaped) one-dimensional array or sequence"""
+        x = a[0]
+        if isinstance(x, SymArr) and x.rank == 1 and not is_z3(x.shape[0]):
+            items = [x.get([i]) for i in range(x.shape[0])]
+        elif isinstance(x, (list, tuple)):
+            items = list(x)
+        else:
+            raise Unsupported("numpy.prod of %r @%s" % (x, l))
+        r = 1
+        for it in items:
+            r = arith("*", r, it)
+        return r
 
     @reg("numpy.sum")
     def _nsum(ex, a, k, l):
